@@ -125,8 +125,8 @@ def queries(h, cfg):
     def twin(h, fr):
         a, _, acks = monitor(h, fr)
         # two acknowledges inside the window, the second transfer starting right after the first ack
-        n = sum([z3.If(x, 1, 0) for x in acks])
-        return a, n >= (2 if D >= 2 * (ratio + 2) else 1)
+        n = sum([z3.If(x, bv(6, 1), bv(6, 0)) for x in acks], bv(6, 0))
+        return a, z3.UGE(n, bv(6, 2 if D >= 2 * (ratio + 2) else 1))
 
     def no_strobe_outside(h, fr):
         f = fr[0]
